@@ -210,9 +210,17 @@ func c04GGen(r *verifh.Rng) []verifh.Section {
 	secs = append(secs, verifh.Section{Cfg: "wrapper=glue side=server", Ops: ops})
 	// client glue: middleware on/off x conf timeout x WithTimeout client options x call options x caller deadline
 	ops = nil
-	userSets := []string{"", "u:120000", "u:120000 u:240000", "u:240000 u:120000", "u:0", "u:-5000"}
+	userSets := []string{"", "u:120000", "u:120000 u:240000", "u:240000 u:120000", "u:0", "u:-5000", "u:30000", "u:30000", "u:240000 u:30000"}
 	callSets := []string{"", "o", "c:30000", "o c:30000 c:300000", "c:300000", "c:0", "c:-1000 o"}
-	n := verifh.Scale(28, 120)
+	// the decisive precedence cases, always: conf timeout vs zrpc.WithTimeout (shorter / longer / several / <= 0) vs per-call timeout
+	for _, fixed := range []string{
+		"gcli on 60000 none u:30000", "gcli on 60000 none u:240000 u:30000", "gcli on 60000 none u:30000 u:240000",
+		"gcli on 60000 none u:120000", "gcli on 2000 none u:30000 c:300000", "gcli on 60000 none u:0", "gcli on 0 none c:30000",
+		"gcli on -1000 none u:30000 o", "gcli off 60000 none u:30000 c:30000", "gcli on 60000 5000 u:30000",
+	} {
+		ops = append(ops, fixed)
+	}
+	n := verifh.Scale(20, 120)
 	for i := 0; i < n; i++ {
 		mw := "on"
 		if r.Chance(1, 8) {
